@@ -16,6 +16,7 @@ import (
 	"verifharness/corpus"
 	"verifharness/ev"
 	"verifharness/mon"
+	"verifharness/rng"
 )
 
 func init() {
@@ -84,6 +85,26 @@ func writeWorker(args []string) {
 	d.Install()
 	if sp.CrashPoint != "" {
 		d.Add(mon.CrashAt(sp.CrashPoint, sp.CrashOcc, func() { j.line("crash %s %d", sp.CrashPoint, sp.CrashOcc) }))
+	}
+	unsafeMode, _ := sp.KVConfig["unsafe_batch"].(bool)
+	if sp.Seed&1 == 1 || unsafeMode {
+		// every second workload (every unsafe_batch one) runs with a slow persister (a seeded pause of up to 3 ms (8 ms) at the top of each persister
+		// round and after it took its snapshot): on a fast medium the persister otherwise keeps up with the writers
+		// and the paths for several unpersisted segments per round (in-memory merges, flush groups) stay cold
+		sg := rng.New(sp.Seed).Derive("slow-persister")
+		var smu sync.Mutex
+		d.Add(func(s *scorch.Scorch, point string, occ int) {
+			if b := mon.Base(point); b != "persist.loopTop" && b != "persist.gotSnapshot" {
+				return
+			}
+			smu.Lock()
+			us := sg.Intn(3000)
+			if unsafeMode {
+				us = sg.Intn(8000) // unsafe batches return at once: let them pile up
+			}
+			smu.Unlock()
+			time.Sleep(time.Duration(us) * time.Microsecond)
+		})
 	}
 	var idx bleve.Index
 	var err error
